@@ -200,9 +200,12 @@ C14Clause(st) ==
 (* user's condition was asked about: the value must be an instance of the  *)
 (* bound.                                                                  *)
 (***************************************************************************)
+(* the user's condition was asked about a value that is an instance of the bound (class-level, or - when *)
+(* the bound is itself value-dependent - value-level)                                                   *)
+BoundOK(t, a) == IF t.bound.k \in {"lit", "dep", "prod"} THEN Holds(W, t.bound, a) ELSE Sat(W, t.bound, a.c)
 C10Clause(st) ==
   LET P == st.obs.predlog IN
-  IF \E q \in DOMAIN P : ~Sat(W, P[q].t.bound, P[q].a.c) THEN "bound_guard"
+  IF \E q \in DOMAIN P : ~BoundOK(P[q].t, P[q].a) THEN "bound_guard"
   ELSE LET c1 == C01Clause(st) IN
        IF c1 # "" THEN "runs_iff_holds." \o c1
        ELSE LET c2 == C02Clause(st) IN IF c2 = "" THEN "" ELSE "value_outcome." \o c2
@@ -282,7 +285,7 @@ StepClause(st) ==
       c16n == IF "C16N" \in Props THEN PlainClause(st) ELSE ""
       c10 == IF "C10" \in Props THEN C10Clause(st)
              ELSE IF "C10G" \in Props THEN
-                  (IF \E q \in DOMAIN st.obs.predlog : ~Sat(W, st.obs.predlog[q].t.bound, st.obs.predlog[q].a.c)
+                  (IF \E q \in DOMAIN st.obs.predlog : ~BoundOK(st.obs.predlog[q].t, st.obs.predlog[q].a)
                    THEN "bound_guard"
                    ELSE LET c == C01Clause(st) IN IF c = "" THEN "" ELSE "runs_iff_holds." \o c)
              ELSE ""
